@@ -40,7 +40,7 @@ partial def parseTRef (s : String) : Option TRef :=
 def ftName : FT → String
   | .integer => "INTEGER" | .real => "REAL" | .number => "NUMBER" | .string => "STRING" | .binary => "BINARY"
   | .boolean => "BOOLEAN" | .logical => "LOGICAL" | .enumeration => "ENUMERATION" | .select => "SELECT"
-  | .array => "ARRAY" | .list => "LIST" | .set => "SET" | .bag => "BAG" | .ref => "REF"
+  | .array => "ARRAY" | .list => "LIST" | .set => "SET" | .bag => "BAG" | .ref => "REF" | .entity => "ENTITY"
 
 def bnd : Option Int → String
   | none => "-" | some n => toString n
@@ -89,7 +89,17 @@ def dumpEntity (d : DEntity) : String :=
   let invs := d.invs.map (fun i => s!" INV {i.name} opt={b01 i.opt} owner={i.owner} type={render i.type} for={i.invAttr} of={i.invEntity}")
   "\n".intercalate (head :: attrs ++ invs)
 
-def dumpType (t : DType) : String :=
+def optFt : Option FT → String
+  | some f => ftName f
+  | none => "UNKNOWN"
+
+/-- the getters that follow referent links, for a reference `r` -/
+def getters (ts : List DType) (r : DRef) : String :=
+  let nr := nonRefOf ts r
+  let el := if isAggrOf ts r then " elem=" ++ optFt (ftOf ts (elemOf ts r)) ++ " elemtd=" ++ render (elemOf ts r) else ""
+  s!" nonref={optFt (ftOf ts nr)} nonreftd={render nr} base={optFt (ftOf ts (baseOf ts r))} isaggr={b01 (isAggrOf ts r)}{el}"
+
+def dumpType (ts : List DType) (t : DType) : String :=
   let a := match t.aggr with
     | some (k, b1, b2, u, o) => " aggr=" ++ aggrFacts k b1 b2 u o
     | none => ""
@@ -99,7 +109,7 @@ def dumpType (t : DType) : String :=
   let mem := match t.members with
     | some ms => " members=" ++ ",".intercalate (ms.map render)
     | none => ""
-  s!"TYPE {t.name} raw={outStr (prettyName (toIdent t.name))} ft={ftName t.ft}{a} ref={render t.ref}{items}{mem}"
+  s!"TYPE {t.name} raw={outStr (prettyName (toIdent t.name))} ft={ftName t.ft}{a} ref={render t.ref}{getters ts (.named t.name)}{items}{mem}"
 
 def dumpInst (s : Schema) (e : Entity) : Option String :=
   if e.abstract then none else
@@ -131,7 +141,7 @@ def dumpNames (s : Schema) : List String :=
 def dumpAll (s : Schema) : String :=
   let d := dictOf s (s.entities.map (·.name))
   let ents := sortByKey (d.entities.map (fun e => (e.name, dumpEntity e)))
-  let tys := sortByKey (d.types.map (fun t => (t.name, dumpType t)))
+  let tys := sortByKey (d.types.map (fun t => (t.name, dumpType d.types t)))
   let insts := sortByKey (s.entities.filterMap (fun e => (dumpInst s e).map (fun l => (e.name, l))))
   let order := emissionOrder s (s.entities.map (·.name))
   "\n".intercalate (
